@@ -13,14 +13,27 @@ use serde_json::json;
 
 #[derive(Clone, Debug)]
 enum Item {
-    Layer { cfg: LayerCfg, input: Vec<usize> },
+    /// ext: unnormalised inputs (pre-activations of several hundred, both signs)
+    Layer { cfg: LayerCfg, input: Vec<usize>, ext: bool },
     Stack { cfgs: Vec<LayerCfg>, input: Vec<usize>, cost: CostK, target: Vec<usize> },
-    Cost { cost: CostK, out: Vec<usize>, target: Vec<usize> },
+    /// ext: outputs spread over the whole positive range, down to the smallest normal numbers
+    Cost { cost: CostK, out: Vec<usize>, target: Vec<usize>, ext: bool },
 }
 
 fn input_vals(n: usize, var: u64) -> Vec<f64> {
     // signed dyadic values, so that relu sees both signs
     (0..n).map(|i| ((i * 5 + var as usize * 3) % 9) as f64 * 0.25 - 1.0 + if i % 2 == 0 { 0.125 } else { 0.0 }).collect()
+}
+
+/// pixel-like inputs (0..255) and their negatives, not normalised
+fn ext_input_vals(n: usize, var: u64) -> Vec<f64> {
+    (0..n).map(|i| { let v = ((i * 97 + var as usize * 31 + 200) % 256) as f64 * 8.0; if i % 3 == 1 { -v } else { v } }).collect()
+}
+
+/// outputs between the smallest normal numbers and 1
+fn ext_prob_vals(n: usize, var: u64) -> Vec<f64> {
+    let tiny = if IS_F32 { [1.0e-12, 0.5, 1.0e-20, 1.0e-36, 1.0e-7, 0.99, 3.0e-30, 1.0e-3] } else { [1.0e-12, 0.5, 1.0e-20, 1.0e-300, 1.0e-7, 0.99, 3.0e-100, 1.0e-3] };
+    (0..n).map(|i| tiny[(i + var as usize) % tiny.len()]).collect()
 }
 
 fn prob_vals(n: usize, var: u64) -> Vec<f64> {
@@ -37,7 +50,7 @@ pub fn explore(opts: &Opts) -> Explored {
         for out in 1..=maxd {
             for act in Act::all() {
                 for input in [vec![inp], vec![1, inp], vec![2, inp], vec![3, inp]] {
-                    items.push(Item::Layer { cfg: LayerCfg::Dense { inp, out, act }, input });
+                    items.push(Item::Layer { cfg: LayerCfg::Dense { inp, out, act }, input, ext: false });
                 }
             }
         }
@@ -46,7 +59,7 @@ pub fn explore(opts: &Opts) -> Explored {
     for (inp, out) in [(65usize, 3usize), (100, 2), (3, 70), (129, 1)] {
         for act in [Act::None, Act::Sigmoid] {
             for input in [vec![inp], vec![2, inp], vec![17, inp]] {
-                items.push(Item::Layer { cfg: LayerCfg::Dense { inp, out, act }, input });
+                items.push(Item::Layer { cfg: LayerCfg::Dense { inp, out, act }, input, ext: false });
             }
         }
     }
@@ -61,7 +74,28 @@ pub fn explore(opts: &Opts) -> Explored {
             items.push(Item::Layer {
                 cfg: LayerCfg::Conv { count: c.filters[0], depth: c.filters[1], fr: c.filters[2], fc: c.filters[3], sr: c.sr, sc: c.sc, act },
                 input: c.image.clone(),
+                ext: false,
             });
+            if act == Act::Sigmoid && c.image.len() == 3 && c.sr == 1 && c.sc == 1 {
+                items.push(Item::Layer {
+                    cfg: LayerCfg::Conv { count: c.filters[0], depth: c.filters[1], fr: c.filters[2], fc: c.filters[3], sr: c.sr, sc: c.sc, act },
+                    input: c.image.clone(),
+                    ext: true,
+                });
+            }
+        }
+    }
+    // unnormalised inputs: pre-activations of several hundred to a few thousand, both signs
+    for inp in 1..=3usize {
+        for out in 1..=3usize {
+            for act in Act::all() {
+                if act == Act::Softmax {
+                    continue; // softmax of such rows is outside its stated domain (exponentials overflow)
+                }
+                for input in [vec![inp], vec![2, inp], vec![3, inp]] {
+                    items.push(Item::Layer { cfg: LayerCfg::Dense { inp, out, act }, input, ext: true });
+                }
+            }
         }
     }
     // models: compositions of 1-3 dense layers, both costs, Model::backward's return value
@@ -121,10 +155,12 @@ pub fn explore(opts: &Opts) -> Explored {
     // cost closures alone on outputs of rank 1-3
     for out in union(shapes(3, 3), vec![vec![4], vec![2, 4]]) {
         for cost in [CostK::Mse, CostK::CrossEntropy] {
-            items.push(Item::Cost { cost, out: out.clone(), target: out.clone() });
+            items.push(Item::Cost { cost, out: out.clone(), target: out.clone(), ext: false });
+            items.push(Item::Cost { cost, out: out.clone(), target: out.clone(), ext: true });
             if out.len() >= 2 {
-                items.push(Item::Cost { cost, out: out.clone(), target: out[1..].to_vec() });
-                items.push(Item::Cost { cost, out: out.clone(), target: vec![*out.last().unwrap()] });
+                items.push(Item::Cost { cost, out: out.clone(), target: out[1..].to_vec(), ext: false });
+                items.push(Item::Cost { cost, out: out.clone(), target: vec![*out.last().unwrap()], ext: false });
+                items.push(Item::Cost { cost, out: out.clone(), target: vec![*out.last().unwrap()], ext: true });
             }
         }
     }
@@ -132,12 +168,12 @@ pub fn explore(opts: &Opts) -> Explored {
         let it = &items[i];
         l.states += 1;
         match it {
-            Item::Layer { cfg, input } => {
-                let case = || format!("layer {} input={} val={}", cfg.describe(), fmt_dims(input), var);
+            Item::Layer { cfg, input, ext } => {
+                let case = || format!("layer {} input={} val={}{}", cfg.describe(), fmt_dims(input), var, if *ext { " unnormalised" } else { "" });
                 if !l.want(&case) {
                     return;
                 }
-                let xv = input_vals(numel(input), var);
+                let xv = if *ext { ext_input_vals(numel(input), var) } else { input_vals(numel(input), var) };
                 let rx = T::from_f64(input.clone(), &xv);
                 l.transitions += 1;
                 l.validated += 1;
@@ -246,16 +282,16 @@ pub fn explore(opts: &Opts) -> Explored {
                 }
                 l.sample(&case);
             }
-            Item::Cost { cost, out, target } => {
-                let case = || format!("cost {} output={} target={} val={}", cost.name(), fmt_dims(out), fmt_dims(target), var);
+            Item::Cost { cost, out, target, ext } => {
+                let case = || format!("cost {} output={} target={} val={}{}", cost.name(), fmt_dims(out), fmt_dims(target), var, if *ext { " tiny outputs" } else { "" });
                 if !l.want(&case) {
                     return;
                 }
-                let ov = prob_vals(numel(out), var + 1);
+                let ov = if *ext { ext_prob_vals(numel(out), var) } else { prob_vals(numel(out), var + 1) };
                 let tv = prob_vals(numel(target), var);
                 let ro = T::from_f64(out.clone(), &ov);
                 let rt = T::from_f64(target.clone(), &tv);
-                let ec = match cost.apply_ref(&ro, &rt) {
+                let ec = match cost.apply_ref_guarded(&ro, &rt, !*ext) {
                     Ok(c) => c,
                     Err(_) => {
                         l.count("skipped");
